@@ -332,6 +332,17 @@ Theorem hist_never_oob : forall ops st,
 Proof. exact ProofsHist.hist_never_oob. Qed.
 Print Assumptions hist_never_oob.
 
+(* BufferReader's implicit copy: same buffer, same cursor; afterwards the readers are independent *)
+Theorem reader_copy_and_independence : forall st k c,
+  nth_error (h_curs st) k = Some c ->
+  (let st' := fst (h_step st (HCopy k)) in
+   h_buf st' = h_buf st /\ nth_error (h_curs st') (length (h_curs st)) = Some c /\ nth_error (h_curs st') k = Some c) /\
+  (forall op j, j <> k ->
+     match op with HRead k' _ _ | HView k' _ | HEnd k' => k' = k | _ => False end ->
+     nth_error (h_curs (fst (h_step st op))) j = nth_error (h_curs st) j).
+Proof. exact ProofsHist.reader_copy_and_independence. Qed.
+Print Assumptions reader_copy_and_independence.
+
 (* the reader is constructed on the empty buffer, "AB" is written, the reader reads it; a second
    reader constructed later starts at 0 *)
 Example shared_buffer_example :
